@@ -134,6 +134,52 @@ Definition it_witness : list nat := [0;0;0; 1;1;1;1;1; 0].
 Theorem iterator_use_after_free : it_uaf (run it_st (it_step false) it_witness it_init) = true.
 Proof. vm_compute. reflexivity. Qed.
 
+(* ------------------------------------------------------------------ 2b. full iterator walk over two records *)
+Lemma iw_bound : forall w t s, 3 <= t -> iw_step w t s = None.
+Proof. intros w t s H. unfold iw_step. do 3 (destruct t as [|t]; [lia|]). reflexivity. Qed.
+Definition iw_reach : list iw_st := explore iw_st iw_st_beq (iw_step true) 3 200000 [iw_init] [].
+Definition iw_finishing : list nat := concat (repeat [0; 1; 2] 16).
+Lemma iw_closed : closed iw_st iw_st_beq (iw_step true) 3 iw_reach = true.
+Proof. vm_compute. reflexivity. Qed.
+Lemma iw_init_in : In iw_init iw_reach.
+Proof. apply (mem_in _ _ internal_iw_st_dec_bl). vm_compute. reflexivity. Qed.
+Lemma iw_all_good :
+  forallb (fun s => iw_ok s && stuck_free iw_st (iw_step true) 3 iw_final s &&
+                    (let z := run iw_st (iw_step true) iw_finishing s in
+                     iw_final z && iw_fr0 z && iw_fr1 z && (iw_ref0 z =? 0) && (iw_ref1 z =? 0) && negb (iw_uaf z))) iw_reach = true.
+Proof. vm_compute. reflexivity. Qed.
+(* HEAD's iterator, a complete walk over two records while both connections end at arbitrary moments: freed memory is never
+   touched (neither by the caller nor by the iterator's own advance / deferred release), nobody gets stuck, and the
+   round-robin continuation ends with the walk finished, both records freed and no reference left *)
+Theorem iterator_walk_two_records_safe : forall sched,
+  let s := run iw_st (iw_step true) sched iw_init in
+  iw_uaf s = false /\ (iw_final s = true \/ exists t, t < 3 /\ enabled iw_st (iw_step true) t s = true) /\
+  (let z := run iw_st (iw_step true) iw_finishing s in iw_final z = true /\ iw_fr0 z = true /\ iw_fr1 z = true /\ iw_uaf z = false).
+Proof.
+  intros sched s.
+  assert (H := all_schedules iw_st iw_st_beq internal_iw_st_dec_bl (iw_step true) 3 (iw_bound true) iw_reach _ iw_init iw_closed iw_init_in iw_all_good sched).
+  cbv beta in H. fold s in H. apply andb_true_iff in H. destruct H as [H H3]. apply andb_true_iff in H. destruct H as [H1 H2].
+  split; [unfold iw_ok in H1; apply negb_true_iff in H1; exact H1|]. split.
+  - unfold stuck_free in H2. apply orb_true_iff in H2. destruct H2 as [H2|H2]; auto.
+    right. apply existsb_exists in H2. destruct H2 as [t [Ht E]]. exists t. split.
+    + apply in_seq in Ht. lia.
+    + unfold enabled. exact E.
+  - cbv zeta in H3.
+    apply andb_true_iff in H3. destruct H3 as [H3 Hu]. apply andb_true_iff in H3. destruct H3 as [H3 _].
+    apply andb_true_iff in H3. destruct H3 as [H3 _]. apply andb_true_iff in H3. destruct H3 as [H3 Hf1].
+    apply andb_true_iff in H3. destruct H3 as [Hfin Hf0].
+    repeat split; auto. apply negb_true_iff. exact Hu.
+Qed.
+Lemma iterator_walk_nonvacuous :
+  let s := run iw_st (iw_step true) [0;0;0; 1;1; 0;0;0; 2;2; 0;0;0;0; 1;1;2;2] iw_init in iw_final s = true /\ iw_uaf s = false.
+Proof. vm_compute. split; reflexivity. Qed.
+
+(* the theorem is not a tautology: if the teardown did not wait for the references, the iterator's advance reads R0->next from
+   the freed R0 *)
+Theorem iterator_walk_needs_the_wait :
+  iw_uaf (run iw_st (iw_step false) [0;0;0; 1;1;1; 0] iw_init) = true.
+Proof. vm_compute. reflexivity. Qed.
+
 (* ------------------------------------------------------------------ 3. shutdown *)
 Lemma shc_bound : forall c t s, 4 <= t -> sh_step_cfg c t s = None.
 Proof. intros c t s H. unfold sh_step_cfg. do 4 (destruct t as [|t]; [lia|]). reflexivity. Qed.
@@ -495,33 +541,34 @@ Theorem shutdown_join_reads_freed_record :
 Proof. vm_compute. split; reflexivity. Qed.
 
 (* ------------------------------------------------------------------ 4e. rfbNewFramebuffer vs. a client that goes / arrives *)
-(* the peer of an idle client disconnects between the pass that locks every sendMutex and the pass that unlocks them:
+(* HEAD: the peer of an idle client disconnects between the pass that locks every sendMutex and the pass that unlocks them:
    the client is closed (skipped by the second iterator) and already unlinked; rfbNewFramebuffer returns still holding
    its sendMutex; the client's own thread blocks for ever in rfbClientConnectionGone (LOCK(cl->sendMutex), rfbserver.c:669) *)
-Definition nf_gone_witness : list nat := [0;0;0; 1;1;1; 0;0; 1].
+Definition nf_gone_witness : list nat := [0;0;0; 1;1;1; 0;0;0; 1].
 Theorem newfb_leaves_sendmutex_locked :
-  let s := run nf_st (nf_step 0) nf_gone_witness (nf_init 0) in
+  let s := run nf_st (nf_step false 0) nf_gone_witness (nf_init 0) in
   nf_pcA s = NF_APP_DONE /\ nf_send s = 1 /\ nf_pcB s = 3 /\ nf_freed s = false /\ nf_ok s = false /\
-  forall t, enabled nf_st (nf_step 0) t s = false.
+  forall t, enabled nf_st (nf_step false 0) t s = false.
 Proof.
   repeat split; try (vm_compute; reflexivity).
   intros t. do 2 (destruct t as [|t]; [vm_compute; reflexivity|]). reflexivity.
 Qed.
 
-(* a connection accepted between the two passes gets an UNLOCK of a sendMutex nobody locked *)
+(* HEAD: a connection accepted between the two passes gets an UNLOCK of a sendMutex nobody locked *)
 Definition nf_new_witness : list nat := [0;0; 1; 0;0].
 Theorem newfb_unlocks_unlocked_mutex :
-  nf_badunlock (run nf_st (nf_step 1) nf_new_witness (nf_init 1)) = true.
+  nf_badunlock (run nf_st (nf_step false 1) nf_new_witness (nf_init 1)) = true.
 Proof. vm_compute. reflexivity. Qed.
 
-(* what does hold, for every schedule: as long as the client neither goes nor arrives BETWEEN the two passes the bracket
-   is balanced - here: the client thread moves only after rfbNewFramebuffer has returned *)
-Lemma nf_bound : forall m t s, 2 <= t -> nf_step m t s = None.
-Proof. intros m t s H. unfold nf_step. do 2 (destruct t as [|t]; [lia|]). reflexivity. Qed.
+Lemma nf_bound : forall f m t s, 2 <= t -> nf_step f m t s = None.
+Proof. intros f m t s H. unfold nf_step. do 2 (destruct t as [|t]; [lia|]). reflexivity. Qed.
+
+(* what does hold at HEAD, for every schedule: as long as the client neither goes nor arrives WHILE rfbNewFramebuffer runs
+   the bracket is balanced - here: the client thread moves only after rfbNewFramebuffer has returned *)
 Definition nf_step_serial (m : nat) (t : nat) (s : nf_st) : option nf_st :=
   match t with
-  | 0 => nf_step m 0 s
-  | 1 => if nf_pcA s =? NF_APP_DONE then nf_step m 1 s else None
+  | 0 => nf_step false m 0 s
+  | 1 => if nf_pcA s =? NF_APP_DONE then nf_step false m 1 s else None
   | _ => None
   end.
 Lemma nfs_bound : forall m t s, 2 <= t -> nf_step_serial m t s = None.
@@ -545,6 +592,40 @@ Proof.
   right. apply existsb_exists in H2. destruct H2 as [t [Ht E]]. exists t. split.
   - apply in_seq in Ht. lia.
   - unfold enabled. exact E.
+Qed.
+
+(* with notes/fix_C13_5.diff: EVERY schedule of both modes (the client goes / arrives at any moment) is balanced, nobody gets
+   stuck, and the round-robin continuation ends with rfbNewFramebuffer returned, the mutex free and, in mode 0, the record freed *)
+Definition nff_reach (m : nat) : list nf_st := explore nf_st nf_st_beq (nf_step true m) 2 5000 [nf_init m] [].
+Definition nf_finishing : list nat := concat (repeat [0; 1] 12).
+Definition nff_good (m : nat) (s : nf_st) : bool :=
+  nf_ok s && stuck_free nf_st (nf_step true m) 2 nf_final s &&
+  (let z := run nf_st (nf_step true m) nf_finishing s in
+   nf_final z && (nf_send z =? 0) && negb (nf_badunlock z) && (nf_ref z =? 0) && ((m =? 1) || nf_freed z)).
+Lemma nff_closed : forall m, m < 2 -> closed nf_st nf_st_beq (nf_step true m) 2 (nff_reach m) = true.
+Proof. intros m H. do 2 (destruct m as [|m]; [vm_compute; reflexivity|]). exfalso; lia. Qed.
+Lemma nff_init : forall m, m < 2 -> In (nf_init m) (nff_reach m).
+Proof. intros m H. apply (mem_in _ _ internal_nf_st_dec_bl). do 2 (destruct m as [|m]; [vm_compute; reflexivity|]). exfalso; lia. Qed.
+Lemma nff_all_good : forall m, m < 2 -> forallb (nff_good m) (nff_reach m) = true.
+Proof. intros m H. do 2 (destruct m as [|m]; [vm_compute; reflexivity|]). exfalso; lia. Qed.
+Theorem newfb_fixed_balanced : forall m sched, m < 2 ->
+  let s := run nf_st (nf_step true m) sched (nf_init m) in
+  nf_ok s = true /\ (nf_final s = true \/ exists t, t < 2 /\ enabled nf_st (nf_step true m) t s = true) /\
+  (let z := run nf_st (nf_step true m) nf_finishing s in nf_final z = true /\ nf_send z = 0 /\ nf_badunlock z = false).
+Proof.
+  intros m sched Hm s.
+  assert (H := all_schedules nf_st nf_st_beq internal_nf_st_dec_bl (nf_step true m) 2 (nf_bound true m)
+                 (nff_reach m) (nff_good m) (nf_init m) (nff_closed m Hm) (nff_init m Hm) (nff_all_good m Hm) sched).
+  fold s in H. unfold nff_good in H. apply andb_true_iff in H. destruct H as [H H3]. apply andb_true_iff in H. destruct H as [H1 H2].
+  split; [exact H1|]. split.
+  - unfold stuck_free in H2. apply orb_true_iff in H2. destruct H2 as [H2|H2]; auto.
+    right. apply existsb_exists in H2. destruct H2 as [t [Ht E]]. exists t. split.
+    + apply in_seq in Ht. lia.
+    + unfold enabled. exact E.
+  - cbv zeta in H3.
+    apply andb_true_iff in H3. destruct H3 as [H3 _]. apply andb_true_iff in H3. destruct H3 as [H3 _].
+    apply andb_true_iff in H3. destruct H3 as [H3 Hnb]. apply andb_true_iff in H3. destruct H3 as [Hfin Hs0].
+    split; [exact Hfin|]. split; [apply Nat.eqb_eq; exact Hs0 | apply negb_true_iff; exact Hnb].
 Qed.
 
 (* ------------------------------------------------------------------ 5. lock order *)
